@@ -307,6 +307,31 @@ type recovery struct {
 
 func (ctx *crashCtx) recoverImage(tree *vos.Tree, cfg Config, journalOn bool, follow func(db *kv.DB, rec *recovery) *kv.DB) *recovery {
 	r := ctx.r
+	return ctx.recoverGeneric(tree, cfg, journalOn, nil, func(db *kv.DB, rec *recovery) *kv.DB {
+		d, f := dumpDB(db, r.Ever)
+		if f != "" {
+			rec.failure = "dump after recovery: " + f
+			rec.oracle = "recovery-dump-inconsistent"
+			return db
+		}
+		rec.dump = d
+		if follow != nil {
+			db = follow(db, rec)
+		}
+		return db
+	})
+}
+
+// recoverImageWith: pre runs on the materialised directory before Open, body after a successful Open.
+func (ctx *crashCtx) recoverImageWith(tree *vos.Tree, cfg Config, body func(db *kv.DB, rec *recovery), pre func(root string, rec *recovery)) *recovery {
+	return ctx.recoverGeneric(tree, cfg, false, pre, func(db *kv.DB, rec *recovery) *kv.DB {
+		body(db, rec)
+		return db
+	})
+}
+
+func (ctx *crashCtx) recoverGeneric(tree *vos.Tree, cfg Config, journalOn bool, pre func(root string, rec *recovery), body func(db *kv.DB, rec *recovery) *kv.DB) *recovery {
+	r := ctx.r
 	ctx.images++
 	root := filepath.Join(ctx.imgRoot, fmt.Sprintf("i%d", ctx.images))
 	_ = os.RemoveAll(root)
@@ -342,6 +367,12 @@ func (ctx *crashCtx) recoverImage(tree *vos.Tree, cfg Config, journalOn bool, fo
 	vclock.Advance(2 * time.Second)
 	s := vrt.NewSched(vrt.Policy{Mode: "seq"})
 	s.Go("recovery", func() {
+		if pre != nil {
+			pre(root, rec)
+			if rec.failure != "" {
+				return
+			}
+		}
 		var db *kv.DB
 		p, fr := protect(func() { db, rec.openErr = kv.Open(r.options(cfg, filepath.Join(root, "db"))) })
 		if p != "" {
@@ -352,17 +383,7 @@ func (ctx *crashCtx) recoverImage(tree *vos.Tree, cfg Config, journalOn bool, fo
 		if rec.openErr != nil {
 			return
 		}
-		d, f := dumpDB(db, r.Ever)
-		if f != "" {
-			rec.failure = "dump after recovery: " + f
-			rec.oracle = "recovery-dump-inconsistent"
-			_ = db.Close()
-			return
-		}
-		rec.dump = d
-		if follow != nil {
-			db = follow(db, rec)
-		}
+		db = body(db, rec)
 		if db != nil {
 			p, _ := protect(func() { _ = db.Close() })
 			if p != "" && rec.failure == "" {
